@@ -66,6 +66,12 @@ CHECKS = {
         text="PROVED for all signatures: if sync_properties overwrites a default value it is the default of the target parameter itself (index + (len(args) - len(defaults)) == position, with the self/cls offset), never another parameter's, and that block leaves the parameter list alone; side conditions on annotate_ancestry's numbering and on the idx lookup are discharged syntactically. The original defect (fixed by 7adde57) is exactly a refutation of this lemma. "
              "BOUNDED only: every other clause (nothing else in the file changes, input untouched, name/annotation/wrap/Literal taken over), over generated module pairs, several calls per process.",
         note="The frame lemma over the args/kwonlyargs replacement loop promised in DESIGN (Seq with a quantified invariant) was not carried; it is covered only by the bounded AST diff."),
+    "C07": dict(
+        category="other", design_ref="DESIGN.md §5 C07",
+        technique="contract-based frame verification (write-frame and statement-order rules over the real ast of doctrans / ast_cst_utils, composed with C09's proved tiling contract); the property's own oracle on generated modules for the rest",
+        text="PROVED (frame lemmas, all inputs): doctrans opens the file for writing exactly once, as its last statement, with nothing that can raise in repo code after the truncating open and the payload being the concatenation of the CST node values (so an error leaves the file intact); under doctransify_cst the only CST slots ever stored to are cst_idx (the def header) and cst_idx+1, the latter only when it is a docstring node or as an insertion. With C09 this yields: lines that are not definition headers or docstrings are byte-identical. "
+             "BOUNDED only: that the re-rendered header and docstring keep the program (AST equality modulo docstrings/annotations/type comments), comments, validity — over generated modules. One known finding (comment inside a multi-line header).",
+        note="Assumed: CST node values are str; find_cst_at_ast returns the slot of the definition it was asked for (not proved; covered by the bounded AST comparison)."),
 }
 
 NA_REASON = "check not built yet (work in progress; see DESIGN.md for the plan)"
